@@ -397,11 +397,40 @@ def run_shard(args):
     return {"script": script_path, "harness_rc": hrc, "harness_err": herr[-6000:], "results": res}
 
 
+REPEAT_MARK = "# groups repeated across resets"
+
+
+def repeat_across_resets(name, lines):
+    """single-instance scripts without twin assertions: after a clear / init, sometimes deliver the
+    most recent group again at once (what is 'received since the last reset' must not depend on what
+    was received before it).  Deterministic in the script's name."""
+    if any(l.startswith("?") for l in lines) or (lines and lines[0] == REPEAT_MARK):
+        return lines
+    insts = set(l.split(None, 1)[0] for l in lines if l and l[0].isdigit())
+    if len(insts) != 1:
+        return lines
+    r = random.Random(hashlib.sha1(name.encode()).hexdigest())
+    out, last = [REPEAT_MARK], None
+    pending = None
+    for l in lines:
+        t = l.split()
+        if len(t) >= 2 and t[1] in ("P", "S"):
+            if pending is not None and r.random() < 0.5:
+                out.append(pending)
+            pending = None
+            last = l
+        elif len(t) >= 2 and t[1] in ("C", "I") and last is not None:
+            pending = last
+        out.append(l)
+    return out
+
+
 def run_stream(stream, variant="hu", prop="-", san=None, twin=False, env_extra=None, tagdir="s"):
     """runs a stream (list of (name, lines)) sharded over the cores; returns merged results"""
     harness = ensure_harness(variant, san)
     driver = ensure_driver()
     flavor = VARIANTS[variant][1]
+    stream[:] = [(n, repeat_across_resets(n, l)) for n, l in stream]      # in place: replays show what ran
     wd = os.path.join(OUTDIR, "%s_%s_%d" % (tagdir, prop, os.getpid()))
     os.makedirs(wd, exist_ok=True)
     nshard = max(1, min(NCPU, len(stream)))
